@@ -332,7 +332,15 @@ where
                             return Err(TestCaseError::reject("stopped"));
                         }
                         let _ = super::sim::take_panics();
+                        let trace = std::env::var("VERIF_TRACE").is_ok();
+                        if trace {
+                            eprintln!("[case shard {shard}] {}", serde_json::to_string(&case).unwrap());
+                        }
+                        let tc = Instant::now();
                         let mut out = run(&case);
+                        if trace {
+                            eprintln!("[done shard {shard}] {:.3}s fail={:?}", tc.elapsed().as_secs_f64(), out.fail.as_ref().map(|f| &f.sig));
+                        }
                         let panics = super::sim::take_panics();
                         if out.fail.is_none() {
                             if let Some(p) = panics.first() {
